@@ -323,6 +323,10 @@ func RunCase(seed uint64, idx, steps, malformedPct int, out *Output) CaseOut {
 	var stepTerms []string
 	for i := 0; i < steps; i++ {
 		q, args := g.next(malformedPct)
+		if strings.Count(q, "?") != len(args) {
+			out.Aborted = append(out.Aborted, fmt.Sprintf("case %d: %d arguments for %q", idx, len(args), q))
+			break
+		}
 		so := StepOut{SQL: q, Args: args, Prepared: r.Chance(1, 3)}
 		if so.Args == nil {
 			so.Args = []Arg{}
